@@ -97,6 +97,48 @@ def _coded_chunks(kind_i, payload, split, cuts):
     return c08._coded_chunks(kind_i, payload, split, cuts)
 
 
+def _discarded_body_still_checked(kind_i, b1, mode, pos, framing):
+    """read_body without a file to keep the body (the default of Session.download): a truncated or damaged coded body is still a
+    protocol error - the decoder runs whether or not anybody keeps its output."""
+    from harness import c08
+    from harness.fakeconn import FakeConnection
+    from wpull.protocol.http.stream import Stream
+    from wpull.protocol.http.request import Request
+    from wpull.errors import ProtocolError, NetworkError
+    from harness.common import run
+    kind = pick(_KINDS, kind_i)
+    pos = pick(list(range(32)), pos)
+    D.zlib = zmodel
+    data = zmodel.encode(kind, [b1], False)
+    n = len(data)
+    if not (1 <= pos < n):
+        return True
+    bad = data[:pos] if mode == 0 else data[:pos] + bytes([data[pos] ^ 0x55]) + data[pos + 1:]
+    try:
+        ref = _reference(kind, bad, False)
+    except zmodel.OutOfModel:
+        return True                                   # the damage turned a stored block into something outside the zlib model
+    ce = b'gzip' if kind == 'gzip' else b'deflate'
+    if framing == 0:
+        wire = b'HTTP/1.1 200 OK\r\nContent-Encoding: ' + ce + b'\r\nContent-Length: ' + str(len(bad)).encode() + b'\r\n\r\n' + bad
+    else:
+        wire = b'HTTP/1.1 200 OK\r\nContent-Encoding: ' + ce + b'\r\n\r\n' + bad
+    conn = FakeConnection(wire, [])
+    st = Stream(conn, keep_alive=True)
+    try:
+        resp = run(st.read_response())
+        run(st.read_body(Request('http://h.example/'), resp, file=None))
+    except (ProtocolError, NetworkError):
+        hit('refused')
+        return True
+    except zmodel.OutOfModel:
+        return True
+    hit('accepted')
+    if kind == 'gzip' and bad[:1] != b'\x1f':
+        return True                                   # sniffed as "not gzip": passed through by design
+    return ref[0] == 'ok'                             # accepted without complaint only if the damaged stream is in fact still valid
+
+
 def _coded_overrun(kind_i, payload, cuts, overrun):
     """A coded, length-delimited body followed by surplus bytes, through Stream.read_body (harness shared with C08)."""
     from harness import c08
@@ -258,6 +300,13 @@ HARNESSES = [
       funcs=['wpull/protocol/http/stream.py:Stream._read_body_by_chunk', 'wpull/protocol/http/stream.py:Stream._decompress_data'],
       doc='the pieces are two HTTP chunks with the boundary at every position of the encoded stream (first chunk = the bare gzip header, '
           'one byte ...): after the final flush the decoded body is exactly the payload'),
+    H('discarded_body_still_checked', '_discarded_body_still_checked', 'kind_i: int, b1: bytes, mode: int, pos: int, framing: int',
+      pre=['0 <= kind_i <= 2 and len(b1) <= 1 and 0 <= mode <= 1 and 0 <= pos <= 31 and 0 <= framing <= 1'],
+      parts=[{'tag': k, 'fix': {'kind_i': str(i)}} for i, k in enumerate(['zlib', 'gzip', 'raw'])],
+      timeout={'quick': 250, 'thorough': 600}, samples=[(1, b'a', 0, 12, 0), (0, b'a', 0, 3, 1)], need=['refused'],
+      funcs=['wpull/protocol/http/stream.py:Stream.read_body', 'wpull/protocol/http/stream.py:Stream._flush_decompressor'],
+      doc='read_body(file=None): a coded body truncated at, or damaged at, every position is still reported as a protocol error (unless '
+          'an independent one-shot reference accepts the damaged stream)'),
     H('coded_overrun', '_coded_overrun', 'kind_i: int, payload: bytes, cuts: List[int], overrun: int',
       pre={'quick': ['0 <= kind_i <= 2 and len(payload) <= 1 and len(cuts) <= 1 and 1 <= overrun <= 2'],
            'thorough': ['0 <= kind_i <= 2 and len(payload) <= 3 and len(cuts) <= 3 and 1 <= overrun <= 2']},
